@@ -90,8 +90,90 @@ def split_key(key):
     return key[:i], key[i + 2:]
 
 
+def for_each_loops(text, ob, cb):
+    """mechanical desugaring of iterator-adapter statements inside one function body (text[ob..cb]):
+
+        E.for_each(|P| B);                      ->  for P in E { B; }
+        E.filter_map(|Q| F).for_each(|P| B);    ->  for Q in E { if let Some(P) = F { B; } }
+
+    (Iterator::for_each is documented as the for loop over the same iterator; filter_map yields the `Some` payloads of F in order.)
+    Verus refuses closures that capture `&mut` state; the loops it can verify.  Returns the new text of the body."""
+    while True:
+        src = Src(text)
+        hit = None
+        for mt in src.find_code(r'\.\s*for_each\s*\(', ob, cb):
+            op = text.index('(', mt.start())
+            cp = src.match_close(op)
+            j = cp + 1
+            while text[j] in ' \t\n':
+                j += 1
+            if text[j] != ';':
+                continue
+            mc = re.match(r'\s*\|([^|]*)\|\s*', text[op + 1:cp])
+            if not mc:
+                continue
+            # statement start: back to the previous `;`, `{` or `}` in code
+            k = mt.start() - 1
+            while k > ob and not (src.mask[k] and text[k] in ';{}'):
+                k -= 1
+            hit = (k + 1, mt.start(), op, cp, j, mc)
+            break
+        if not hit:
+            return text, cb
+        st, dot, op, cp, semi, mc = hit
+        recv = text[st:dot]
+        lead = recv[:len(recv) - len(recv.lstrip())]
+        e = ' '.join(recv.split())
+        pat = mc.group(1).strip()
+        body = text[op + 1 + mc.end():cp].strip()
+        fm = re.search(r'\.\s*filter_map\s*\(\s*\|([^|]*)\|\s*', e)
+        if fm and e.endswith(')') and Src(e).match_close(e.index('(', fm.start())) == len(e) - 1:
+            inner = e[fm.end():-1].strip()
+            rep = '%sfor %s in %s { if let Some(%s) = %s { %s; } }' % (lead, fm.group(1).strip(), e[:fm.start()].replace(' .', '.'), pat, inner, body)
+        else:
+            rep = '%sfor %s in %s { %s; }' % (lead, pat, e.replace(' .', '.'), body)
+        text = text[:st] + rep + text[semi + 1:]
+        cb += len(rep) - (semi + 1 - st)
+
+
+F64_GATE_RE = re.compile(r'\(\s*([A-Za-z_][A-Za-z0-9_.()]*)\s+as\s+f64\s*/\s*([A-Za-z_][A-Za-z0-9_.()]*)\s+as\s+f64\s*\)\s*(<=|>=|<|>)\s*[0-9][0-9._]*_f64')
+
+
+def f64_gates(text, ob, cb):
+    """`(A as f64 / B as f64) < 0.75_f64` -> `verif_f64_gate(A, B)`: Verus has no usize -> f64 cast.  The operands are still
+    evaluated; the outcome of the floating-point comparison becomes an unspecified boolean (the unit's prelude declares
+    verif_f64_gate as an external_body function without a postcondition), so both branches are verified."""
+    body = text[ob:cb + 1]
+    new = F64_GATE_RE.sub(lambda m: 'verif_f64_gate(%s, %s)' % (m.group(1), m.group(2)), body)
+    return text[:ob] + new + text[cb + 1:], cb + len(new) - len(body)
+
+
+def pre_rewrite(text, unit):
+    """source-level desugarings applied to the bodies of the functions that ask for them (spec key `pre_rewrites`), before annotation"""
+    for key, spec in unit.get('fns', {}).items():
+        if not spec.get('pre_rewrites'):
+            continue
+        cont, name = split_key(key)
+        src = Src(text)
+        cands = []
+        for mt in src.find_code(r'\bfn\s+%s\b' % re.escape(name)):
+            ob = src.next_body_open(mt.start())
+            if ob >= 0:
+                cands.append((ob, src.match_close(ob)))
+        if len(cands) != 1:
+            raise AnchorLost('%s: fn `%s` found %d times (pre-rewrite)' % (unit['file'], name, len(cands)))
+        ob_, cb_ = cands[0]
+        unit.setdefault('_orig_body_sha', {})[key] = sha(text[ob_:cb_ + 1])  # the body as it is in /repo, before desugaring
+        if 'for_each_loops' in spec['pre_rewrites']:
+            text, cb_ = for_each_loops(text, ob_, cb_)
+        if 'f64_gates' in spec['pre_rewrites']:
+            text, cb_ = f64_gates(text, ob_, cb_)
+    return text
+
+
 def annotate_file(text, unit, canary=False, disabled_rewrites=()):
     """returns (new_text, [FnInfo])"""
+    text = pre_rewrite(text, unit)
     src = Src(text)
     edits = []  # (start, end, replacement, prio)
     infos = []
@@ -311,13 +393,27 @@ def slice_match_rewrite(src, key, ob, cb, add_edit, info):
         info.rewrites_applied.append('slice_match: %d arms at +%d' % (len(arms), mt.start() - ob))
 
 
+def obligation_text(info, key, asserts, default_props):
+    """a proof block of asserts, one per line, each registered as a clause (kind `obligation`) with its own property tags"""
+    out = ['\nproof {']
+    for (props, expr) in asserts:
+        idx = len([c for c in info.clauses if c[0] == 'obligation'])
+        expr = ' '.join(expr.split())
+        info.clauses.append(('obligation', idx, props if props is not None else default_props, 'assert(%s)' % expr))
+        out.append('assert(%s); /*@c:%s#obligation#%d*/' % (expr, key, idx))
+    out.append('}\n')
+    return '\n'.join(out)
+
+
 def process_fn(src, unit, key, spec, s, hp, ob, cb, add_edit, canary, disabled_rewrites):
     text = src.text
     info = FnInfo(unit['name'], key, spec)
     default_props = info.props
+    for pr in spec.get('pre_rewrites', []):
+        info.rewrites_applied.append('pre-rewrite %s (source-level desugaring before annotation; tool/annotate.py)' % pr)
     sig = text[hp:ob]
     body = text[ob:cb + 1]
-    info.body_sha_repo = sha(body)
+    info.body_sha_repo = unit.get('_orig_body_sha', {}).get(key) or sha(body)
 
     # attributes + marker, placed right before the `fn`/`pub fn` keyword
     ls = text.rfind('\n', 0, hp) + 1
@@ -399,11 +495,11 @@ def process_fn(src, unit, key, spec, s, hp, ob, cb, add_edit, canary, disabled_r
             kwp, lob = found[ordinal]
             add_edit(lob, lob, '\n' + inv.strip() + '\n' + indent + '    ', prio=1)
         # obligations stated inside a loop body (part of the contract, unlike hints: never dropped when anchors are lost)
-        for ordinal, text_ in spec.get('loop_obligations', {}).items():
+        for ordinal, asserts in spec.get('loop_obligations', {}).items():
             if ordinal >= len(found):
                 continue
             kwp, lob = found[ordinal]
-            add_edit(lob + 1, lob + 1, ' ' + text_ + ' ', prio=4)
+            add_edit(lob + 1, lob + 1, obligation_text(info, key, asserts, default_props), prio=4)
         # name the ghost iterator of a `for` loop (`for x in e` -> `for x in iter: e`): Verus-only annotation, erased
         for ordinal, gname in spec.get('loop_iter', {}).items():
             if ordinal >= len(found):
@@ -417,6 +513,19 @@ def process_fn(src, unit, key, spec, s, hp, ob, cb, add_edit, canary, disabled_r
             # fewer or extra loops: the invariants may sit on the wrong loops and the new loop has none.  The function is verified as it
             # is, but a failure is trusted only together with a concrete failing input (same rule as for lost hint anchors)
             info.degraded.append('%s: expected %d loops, found %d' % (key, spec['loop_count'], len(found)))
+
+    # obligations stated at a program point (part of the contract, unlike hints): the anchor must be there
+    for ob_ in spec.get('obligations', []):
+        alts = ob_['anchor'] if isinstance(ob_['anchor'], list) else [ob_['anchor']]
+        pos = None
+        for a in alts:
+            occ = [ob + m.start() for m in re.finditer(re.escape(a), text[ob:cb + 1]) if src.mask[ob + m.start()]]
+            if len(occ) == 1:
+                pos = occ[0] if ob_.get('where', 'before') == 'before' else occ[0] + len(a)
+                break
+        if pos is None:
+            raise AnchorLost('%s: the program point of an obligation (`%s`) is not there' % (key, alts[0]))
+        add_edit(pos, pos, obligation_text(info, key, ob_['asserts'], default_props), prio=4)
 
     # ghost inserts at textual anchors.  If any anchor of the function is lost, none of its hint inserts is applied
     # (a hint placed next to changed code may not even compile); the function is then verified without hints.
